@@ -82,6 +82,14 @@ def exemptionGranted (d : Def) : Bool :=
   c04Check d "isTree" && c04Check d "recognises" && c04Check d "ambigLeaf" && c04Check d "authConsistent"
   && !c04Check d "cmdsOK" && cmdsOKSourceOnly (cfg0 d).L
 
+/-- an `acquire-priv` step of a network on-X list, run by the driver of C04's session model: it is
+`AcquirePriv` of the step's target (or the run-time default), which begins by re-reading the
+device's prompt; every other step leaves the privilege session alone here -/
+def onxAcquire (c : Priv.Cfg) (runtimeDefault : String) (st : Step) (s : Priv.Sess) : Option Priv.Err × Priv.Sess :=
+  match onxAction runtimeDefault st with
+  | .acquire t => Priv.acquirePriv c (ofStr t) s
+  | _ => (none, s)
+
 /-- a level the property allows as a target, and one it allows as a start without a tracked level:
 its prompt is accepted by no other level -/
 def unambStart (d : Def) (l : Level) : Bool := Priv.unambB (cfg0 d) (ofStr l.name)
